@@ -965,7 +965,8 @@ def spec_parse_tie(run, ctx, env, lines, c_out, rnd, tally, pid):
     C04_every_valid_encoding_is_read_as_specified, here on the real library); on the valid re-encodings the
     specification must read SOMETHING unless a required field with a default was left out.  Damaged copies of the
     inputs exercise the rejecting side."""
-    for k in ('spec_reads', 'spec_reads_equal_to_protobuf_c', 'spec_not_a_valid_encoding', 'damaged_inputs', 'damaged_spec_reads'):
+    for k in ('spec_reads', 'spec_reads_equal_to_protobuf_c', 'spec_not_a_valid_encoding', 'damaged_inputs', 'damaged_spec_reads',
+              'valid_reencodings_the_specification_does_not_read'):
         tally.setdefault(k, 0)
     dam = []
     for l in lines[:max(8, len(lines) // 2)]:
@@ -1000,6 +1001,10 @@ def spec_parse_tie(run, ctx, env, lines, c_out, rnd, tally, pid):
             tally['damaged_inputs'] += 1
         if s_out[i] == 'U NONE':
             tally['spec_not_a_valid_encoding'] += 1
+            if not damaged:
+                # outside the theorem (the specification is stricter than the format in places: packed bool elements
+                # sent as padded varints, see C04_laxer_specification_is_not_refined); decided by the reference tie only
+                tally['valid_reencodings_the_specification_does_not_read'] += 1
             continue
         tally['spec_reads'] += 1
         if damaged:
